@@ -78,6 +78,7 @@ def syscalls(ctx, work, exe):
         m = re.match(r'^\d+\s+(\w+)\(', l)
         name = m.group(1) if m else 'unknown'
         ctx.violation('syscall:%s' % name, 'system call during library operations: %s' % l[:200], {'strace': l})
+    input_changes(ctx, r.stdout, 'prod', 'strace run')
     ops = re.search(r'ops=(\d+)', r.stdout)
     ctx.event('no-syscalls', 'operations-between-markers', n=int(ops.group(1)) if ops else 1)
     ctx.extra['syscalls_total_in_process'] = len([l for l in lines if l.strip()])
@@ -105,6 +106,7 @@ def snapshot(ctx, work, cfgname, exe, objs):
     r = sh([exe, '--snapshot', f, str(2 if ctx.quick else 20), str(ctx.seed)], timeout=1800)
     if r.returncode != 0:
         raise harness.HarnessError('snapshot run failed: %s' % r.stdout[-500:])
+    input_changes(ctx, r.stdout, cfgname, 'snapshot run')
     for l in r.stdout.split('\n'):
         if l.startswith('CHANGED '):
             n = l.split()[1]
@@ -112,6 +114,44 @@ def snapshot(ctx, work, cfgname, exe, objs):
     for a, s, n in table:
         ctx.event('writable-symbol-unchanged', '%s/%s' % (cfgname, n))
     ctx.extra.setdefault('writable_symbols', {})[cfgname] = [n for _, _, n in table]
+
+
+def input_changes(ctx, out, cfg, how):
+    """INPUT-CHANGED lines of the driver: a const input object differs from its snapshot after the workload"""
+    for l in out.split('\n'):
+        m = re.match(r'INPUT-CHANGED phase=(\S+) field=(\S+) offset=(\d+)', l)
+        if m:
+            ctx.violation('input-modified:%s' % m.group(2), 'the library wrote to an object it received as a const input (field %s of the shared inputs, first changed byte %s, %s phase, %s build, %s): '
+                          'concurrent calls sharing that input are no longer independent' % (m.group(2), m.group(3), m.group(1), cfg, how), {'config': cfg, 'field': m.group(2)})
+
+
+def readonly_inputs(ctx, cfgs):
+    """production builds: the shared inputs live in read-only pages while every family runs sequentially and then on 8 threads"""
+    for cfg in cfgs:
+        try:
+            exe = build.build_driver(cfg, 'c20_drv.cpp', extra_ld=['-lpthread'])
+        except build.BuildError as e:
+            raise harness.HarnessError(str(e)[-1500:])
+        for rep in range(2 if ctx.quick else 10):
+            seed = ctx.seed * 977 + rep
+            rc, out, err = harness.run_driver(exe, None, args=['--roinputs', '8', str(16 if ctx.quick else 48), str(seed)], timeout=1800)
+            m = re.search(r'WRITE-TO-SHARED-INPUT family=(\S+) field=(\S+)', out)
+            if m:
+                ctx.violation('input-written:%s:%s' % (m.group(1), m.group(2)), 'a %s operation wrote into a read-only input object (field %s) [%s build, seed %d]' % (m.group(1), m.group(2), cfg, seed),
+                              {'config': cfg, 'seed': seed, 'mode': 'roinputs'})
+                continue
+            if rc != 0:
+                ctx.violation('threads:crash:%s' % harness.classify_failure(rc, err), 'read-only-input run failed rc=%s: %s' % (rc, err[-800:]), {'config': cfg, 'seed': seed})
+                continue
+            mm = re.search(r'threads=(\d+) ops=(\d+) mismatches=(\d+) .* readonly=1', out)
+            if not mm:
+                raise harness.HarnessError('read-only-input run printed no summary: %s' % out[-300:])
+            if int(mm.group(3)):
+                fam = re.findall(r'MISMATCH thread=\d+ op=\d+ family=(\S+)', out)
+                ctx.violation('threads:result-differs:%s' % (fam[0] if fam else '?'), 'concurrent calls returned results different from the sequential replay (%s build, read-only inputs, seed %d)' % (cfg, seed),
+                              {'config': cfg, 'seed': seed, 'mode': 'roinputs'})
+            input_changes(ctx, out, cfg, 'read-only run')
+            ctx.event('read-only-inputs', cfg, n=int(mm.group(2)))
 
 
 def tsan_key(err):
@@ -151,6 +191,7 @@ def threads(ctx, cfgs):
                 fam = re.findall(r'MISMATCH thread=\d+ op=\d+ family=(\S+)', out)
                 ctx.violation('threads:result-differs:%s' % (fam[0] if fam else '?'), 'concurrent calls returned results different from the sequential replay (%s of %s operations; %s build, %d threads, seed %d)'
                               % (m.group(3), m.group(2), cfg, T, seed), {'config': cfg, 'threads': T, 'seed': seed, 'ops': n, 'detail': out[:600]})
+            input_changes(ctx, out, cfg, '%d threads, seed %d' % (T, seed))
             total_pairs += int(m.group(4))
             for a, b, c in re.findall(r' ([\w-]+)\+([\w-]+)=(\d+)', out):
                 matrix['%s+%s' % (a, b)] = matrix.get('%s+%s' % (a, b), 0) + int(c)
@@ -178,16 +219,20 @@ def run(ctx):
             if cfg == 'prod':
                 syscalls(ctx, work, exe)
             snapshot(ctx, work, cfg, exe, objs)
+        readonly_inputs(ctx, ['prod'] if ctx.quick else ['prod', 'p64', 'p32'])
         threads(ctx, ['tsan'] if ctx.quick else ['tsan', 'p64-tsan', 'p32-tsan'])
     finally:
         shutil.rmtree(work, ignore_errors=True)
     ctx.rule = ('(1) closure: undefined-symbol table of every library object (prod/portable-64/portable-32) against the allowed set, and a freestanding -nostdlib -static link with a runtime '
                 'providing only memcpy/memmove/memset/memcmp/bcmp + libgcc that runs the static initialisers and a pairing/WKD-IBE/LQ-IBE smoke workload; (2) strace: no system call between two '
-                'markers bracketing operations of all 12 API families; (3) every writable symbol of the library objects is snapshotted after load and compared after the workload; '
+                'markers bracketing operations of all 14 API families; (3) every writable symbol of the library objects is snapshotted after load and compared after the workload; '
                 '(4) TSan builds: 4/8/16 threads released from a barrier run seeded mixes of all families on private outputs sharing const inputs (params, keys, prepared G2), often the very same '
-                'operation at once; no TSan report, results equal to a sequential replay; the evidence lists which family pairs were actually observed overlapping')
+                'operation at once; no TSan report, results equal to a sequential replay; the evidence lists which family pairs were actually observed overlapping; '
+                '(5) const inputs stay const: the shared inputs (parameters, keys, attribute lists with identities >= r and >= 2r and hidden entries, scalars >= r, prepared G2, hash inputs) are '
+                'byte-compared with a snapshot after every workload, and production builds run every family sequentially and on 8 threads with those inputs in read-only pages (a write faults and '
+                'names the family and the field)')
     ctx.assumptions = ['TSan does not see inside the assembly routines (they touch only their arguments)', 'a finite number of schedules is observed, not all interleavings']
-    need = ['closure-executed|prod', 'closure-executed|p64', 'closure-executed|p32', 'no-syscalls|', 'writable-symbol-unchanged|prod/', 'concurrent-run|tsan/T4', 'concurrent-run|tsan/T8']
+    need = ['read-only-inputs|prod', 'closure-executed|prod', 'closure-executed|p64', 'closure-executed|p32', 'no-syscalls|', 'writable-symbol-unchanged|prod/', 'concurrent-run|tsan/T4', 'concurrent-run|tsan/T8']
     for r in need:
         if not any(k.startswith(r) for k in ctx.classes):
             ctx.required_classes.add(r)
